@@ -4,6 +4,7 @@ use std::collections::{BTreeSet, HashSet};
 use crate::falsify::{hash_of, FOut};
 use crate::gen::{G, MS};
 use crate::json::J;
+use crate::model::Inst;
 use crate::sim::*;
 use crate::state::*;
 use crate::vid::*;
@@ -53,7 +54,7 @@ fn bad_notes(sim: &Sim, live: &dyn Fn(usize) -> bool) -> Vec<String> {
 /// C02: fault-free cluster
 pub fn c02(seed: u64, budget: u64, with_model: bool) -> FOut {
     let mut out = FOut::default();
-    out.rule = "discrete-event simulation of n = 2..8 real instances: join orders (all through one seed member / chain / different random existing members; simultaneous or staggered), per-message latencies in [1,90] ms < probe_rtt/4 = 100 ms, fan-out 1..3, max_transmissions 1..10, periodic gossip/announce on or off, packet sizes from just-feeds-the-cluster to 1400 (and, for the safety clause, smaller); exactly-once timers at their deadlines. Monitors: no Suspect/Down record of a live member, no MemberDown/Idle/Defunct, no error from any call, full mutual discovery within (4n+8) probe periods + one announce period. distinct = distinct (n, join mode, config) tuples".into();
+    out.rule = "discrete-event simulation of n = 2..8 real instances: join orders (all through one seed member / chain / different random existing members; simultaneous or staggered), per-message latencies in [1,90] ms < probe_rtt/4 = 100 ms, fan-out 1..3, max_transmissions 1..10, periodic gossip/announce on or off, packet sizes from just-feeds-the-cluster to 1400 (and, for the safety clause, smaller); exactly-once timers at their deadlines; in a third of the runs the application adds well-formed custom broadcasts of 1..6 bytes at random members. Monitors: no Suspect/Down record of a live member, no MemberDown/Idle/Defunct, no error from any call, full mutual discovery within (4n+8) probe periods + one announce period. distinct = distinct (n, join mode, config) tuples".into();
     let mut g = G::new(seed ^ 0xC02);
     let mut steps = 0u64;
     let mut mismatches: Vec<String> = vec![];
@@ -88,6 +89,22 @@ pub fn c02(seed: u64, budget: u64, with_model: bool) -> FOut {
             concurrent_joiners_diff_seeds = true;
         }
         let join_end = if staggered { n as u128 * P / 2 + 300 * MS } else { 50 * MS };
+        // in a third of the runs the application uses custom broadcasts (well-formed items of 1..6 bytes)
+        if g.chance(35) {
+            for _ in 0..1 + g.below(5) {
+                let mut item = vec![g.below(5) as u8];
+                let extra = g.below(6);
+                if extra > 0 {
+                    item.push(g.below(4) as u8);
+                    for _ in 1..extra {
+                        item.push(g.below(256) as u8);
+                    }
+                }
+                let packed = item.iter().enumerate().fold(0u128, |a, (i, b)| a | ((*b as u128) << (8 * i)));
+                let at = join_end + g.below(8) as u128 * P + g.below(1000) as u128 * MS;
+                sim.push(at, Ev::Api { node: g.below(n as u64) as usize, what: 3, arg: [item.len() as u128, packed, 0, 0] });
+            }
+        }
         let freq = cfg.periodic_announce.map(|x| x.0).unwrap_or(0);
         // "linear in the cluster size": the property fixes no constant; 4n+8 periods (+ one announce
         // period) is far above what fault-free runs need, so exceeding it means something is wrong
@@ -314,7 +331,7 @@ pub fn c03(seed: u64, budget: u64) -> FOut {
 /// C04: a single lost datagram never gets a live member declared Down
 pub fn c04(seed: u64, budget: u64) -> FOut {
     let mut out = FOut::default();
-    out.rule = "formed clusters of n = 2..5 (probe_period 1000 ms >= 2*probe_rtt 400 ms, latencies < probe_rtt/4, suspect_to_down_after 3 periods, and 0.6 / 1 / 1.5 periods in two-member clusters), notify_down_members on/off, renewable and non-renewable identities; for a seeded configuration EVERY datagram index in a window of 2n+2 probe periods is dropped in turn (one fresh run per index); monitors: no MemberDown / Defunct / Rejoin anywhere, and 2n+4 periods + suspect_to_down_after later every instance lists every other as Alive. distinct = distinct (configuration, dropped index, dropped kind)".into();
+    out.rule = "formed clusters of n = 2..5 (probe_period 1000 ms >= 2*probe_rtt 400 ms, latencies < probe_rtt/4, suspect_to_down_after 3 periods, and 0.6 / 1 / 1.5 periods in two-member clusters; packet sizes of exactly a Ping plus one piggybacked update, +0..2, in two-member clusters), notify_down_members on/off, renewable and non-renewable identities; for a seeded configuration EVERY datagram index in a window of 2n+2 probe periods is dropped in turn (one fresh run per index); monitors: no MemberDown / Defunct / Rejoin anywhere, and 2n+4 periods + suspect_to_down_after later every instance lists every other as Alive. distinct = distinct (configuration, dropped index, dropped kind)".into();
     let mut g = G::new(seed ^ 0xC04);
     let mut cfgs = 0u64;
     while out.runs < budget {
@@ -325,6 +342,15 @@ pub fn c04(seed: u64, budget: u64) -> FOut {
             // two members: the suspicion reaches the suspect with the very next Ping, so a timeout shorter
             // than a probe period (but longer than a round trip) is still safe
             cfg.suspect_to_down_after = *g.pick(&[600 * MS, 1000 * MS, 1500 * MS]);
+        }
+        if n == 2 && g.chance(40) {
+            // packet sizes around 'a Ping / Ack plus exactly one piggybacked update': the suspicion must
+            // still reach the suspected member whenever it fits at all
+            let hdr = header_bytes(&foca::Header { src: VId::new(1, 0, 0, 0), src_incarnation: 0, dst: VId::new(2, 0, 0, 0), message: foca::Message::Ping(0) }).len() as u128;
+            let mem = member_bytes(&MMember { id: VId::new(2, 0, 0, 0), inc: 0, state: 1 }.to_member()).len() as u128;
+            cfg.max_packet_size = hdr + 2 + mem + g.below(3) as u128;
+            cfg.periodic_gossip = None;
+            cfg.periodic_announce = None;
         }
         let renew = if g.chance(50) { 1 } else { 0 };
         let sim_seed = g.next();
@@ -526,7 +552,7 @@ pub fn c05(seed: u64, budget: u64) -> FOut {
 /// C18: reply cascades terminate
 pub fn c18(seed: u64, budget: u64) -> FOut {
     let mut out = FOut::default();
-    out.rule = "pairs and triples of real instances put into arbitrary mutual-knowledge states (alive / suspect / down / superseded identity; active, idle or defunct themselves) by seeded apply_many / leave / identity changes, renewable or not, notify_down_members on/off; timers frozen; one initial datagram of every kind is injected and all resulting datagrams are delivered (random order) until the network is empty; more than 2000 deliveries = a storm; then seeded single-instance histories (300 calls, large member lists, small packets) on which every delivered datagram must cause at most k * num_indirect_probes + 1 new datagrams, k = member updates it carries about the receiver's own address (+1 for a TurnUndead); in particular at most one for a datagram that says nothing about the receiver. distinct = distinct (states, initial datagram) pairs".into();
+    out.rule = "pairs and triples of real instances put into arbitrary mutual-knowledge states (alive / suspect / down / superseded identity; active, idle or defunct themselves) by seeded apply_many / leave / identity changes, renewable or not (including identities whose renewal loses the address conflict, with 1500 generations to go), notify_down_members on/off; timers frozen; one initial datagram of every kind is injected and all resulting datagrams are delivered (random order) until the network is empty; more than 2000 deliveries = a storm; then seeded single-instance histories (300 calls, large member lists, small packets) on which every delivered datagram must cause at most k * num_indirect_probes + 1 new datagrams, k = member updates it carries about the receiver's own address (+1 for a TurnUndead); in particular at most one for a datagram that says nothing about the receiver. distinct = distinct (states, initial datagram) pairs".into();
     let mut g = G::new(seed ^ 0xC18);
     for _run in 0..budget {
         let n = 2 + g.below(2) as usize;
@@ -534,13 +560,22 @@ pub fn c18(seed: u64, budget: u64) -> FOut {
         cfg.max_packet_size = 1400;
         let renew = *g.pick(&[0u8, 0, 1, 2, 3]);
         let mut sim = Sim::new(n, &cfg, g.next(), renew, false);
+        if renew == 3 && g.chance(50) {
+            // identities whose renewal LOSES the address conflict, with a long way down (generation 1500): an
+            // instance that adopted such renewals would renew on every TurnUndead for thousands of rounds
+            for i in 0..n {
+                let id = VId::new(i as u16 + 1, 1500, 3, 0);
+                sim.nodes[i].inst = Inst::new(id, &cfg, g.next(), 0, 255);
+            }
+        }
         sim.timers_frozen = true;
         // mutual knowledge
         for i in 0..n {
             let mut ups = vec![];
             for x in 0..n {
                 if x != i && g.chance(85) {
-                    ups.push(MMember { id: VId::new(x as u16 + 1, if g.chance(20) { 1 } else { 0 }, renew, 0), inc: *g.pick(&[0u16, 0, 1, 65535]), state: g.below(3) as u8 });
+                    let base_gen = sim.id_of(x).g;
+                    ups.push(MMember { id: VId::new(x as u16 + 1, if g.chance(20) { base_gen + 1 } else { base_gen }, renew, 0), inc: *g.pick(&[0u16, 0, 1, 65535]), state: g.below(3) as u8 });
                 }
             }
             if g.chance(30) {
